@@ -22,6 +22,7 @@ CONSTANTS
   MaxHavoc = 1
   KeepRec = FALSE
   NestedTrigs = {}
+  NestedHx = {}
   EvMayHold = FALSE
 INVARIANT NoBad
 INVARIANT Structural
